@@ -487,8 +487,13 @@ class InstanceState(interfaces.InspectionAttrInfo, Generic[_O]):
 
             state.session_id = None
 
-            if to_transient and state.key:
-                del state.key
+            if to_transient:
+                if state.key:
+                    del state.key
+                if state._deleted:
+                    # the object goes back to transient: the DELETE
+                    # (and the INSERT) it took part in are gone
+                    del state._deleted
             if persistent:
                 if to_transient:
                     if persistent_to_transient is not None:
